@@ -1163,6 +1163,10 @@ where
 
 	// Step 5: Cancel any transactions with an expired TTL
 	for tx in txs {
+		// a transaction confirmed by the kernel lookup above is no longer pending
+		if tx.confirmed {
+			continue;
+		}
 		if let Some(e) = tx.ttl_cutoff_height {
 			if tip.0 >= e {
 				wallet_lock!(wallet_inst, w);
